@@ -235,7 +235,7 @@ func R47() Rule {
 	return Rule{Name: "R47", Run: func(c *core.Ctx) {
 		P := c.P
 		stamp := P.MustFunc(core.PkgBttest, "(*table).write")
-		upd := P.MustFunc(core.PkgBttest, "(*table).updateRow")
+		upd := P.Func(core.PkgBttest, "(*table).updateRow") // nil when the helper was inlined: the stores are then the backend calls themselves
 		// certainly(f): every execution of f stamps (a call or defer of table.write in its entry
 		// block, directly, through a helper, or through the function a helper hands back:
 		// `defer tbl.lockForWrite()()`)
@@ -301,13 +301,20 @@ func R47() Rule {
 			if fn.Parent() != nil || !isServerMethod(fn) || fn.Object() == nil || !fn.Object().Exported() {
 				continue
 			}
-			scope := P.Scope(fn, func(f *ssa.Function) bool { return core.PkgPathOf(f) != core.PkgBttest || f == upd })
+			scope := P.Scope(fn, func(f *ssa.Function) bool { return core.PkgPathOf(f) != core.PkgBttest || (upd != nil && f == upd) })
 			within := setOf(scope)
 			var stores []ssa.Instruction
 			for _, f := range scope {
 				for _, ci := range core.AllCalls(f) {
-					if ci.Static == upd {
+					if upd != nil && ci.Static == upd {
 						stores = append(stores, ci.Instr)
+					}
+					// (the four single-row write RPCs only: admin operations purge rows without being "writes" to the collector)
+					if (upd == nil || upd.Blocks == nil) && isRowsMethod(ci, "ReplaceOrInsert", "Delete") {
+						switch core.FuncName(fn) {
+						case rpcMutateRow, rpcMutateRows, rpcCAM, rpcRMW:
+							stores = append(stores, ci.Instr)
+						}
 					}
 				}
 			}
@@ -1141,15 +1148,28 @@ func R55() Rule {
 			}
 			return false
 		}
-		reachesDisk := map[*ssa.Function]bool{}
+		// the disk constructor: whatever opens a leveldb directory (newDiskDb, or the reopen closures
+		// themselves when it is inlined into them — those are checked by R31's "<opener>-nuke")
+		opensDir := map[*ssa.Function]bool{}
 		for _, fn := range P.SrcFuncs(core.PkgBttest) {
 			for _, ci := range core.AllCalls(fn) {
-				if ci.Static != nil && core.FuncName(ci.Static) == "newDiskDb" {
-					reachesDisk[fn] = true
+				if ci.IsFunc(pkgLdb, "OpenFile") {
+					opensDir[fn] = true
 				}
 			}
 		}
+		reachesDisk := map[*ssa.Function]bool{}
 		nClos := 0
+		for _, fn := range P.SrcFuncs(core.PkgBttest) {
+			for _, ci := range core.AllCalls(fn) {
+				if ci.Static != nil && opensDir[ci.Static] {
+					reachesDisk[fn] = true
+				}
+			}
+			if opensDir[fn] && hasBoolParam(fn) {
+				nClos++ // an opener that takes the nuke flag itself
+			}
+		}
 		for _, fn := range P.SrcFuncs(core.PkgBttest) {
 			if !hasBoolParam(fn) || !reachesDisk[fn] {
 				continue
@@ -1354,6 +1374,19 @@ func R56() Rule {
 		if len(cleared) < 3 {
 			c.Unknown("R56", "b/floor", token.NoPos, "only %d fields cleared by ScrubMeta", len(cleared))
 		}
+		// … and every field the write-time initialiser bakes into the stored record (name, content type)
+		// is also baked at read time: an object whose sidecar is missing (a file placed in the directory,
+		// a legacy store) is served from InitMetaWithUrls alone
+		if initS := P.Func(core.PkgGcsemu, "InitScrubbedMeta"); initS != nil && initS.Blocks != nil {
+			c.Fn("InitScrubbedMeta")
+			written := fieldsSet(initS)
+			for _, f := range keysOf(written) {
+				if cleared[f] {
+					continue
+				}
+				c.Check(baked[f], "R56", "b/write-time-field-is-baked-at-read-time/"+f, initU.Pos(), "InitMetaWithUrls sets "+f+" as well", "InitScrubbedMeta sets Object."+f+" when an object is written but InitMetaWithUrls does not set it when one is read: an object without a metadata sidecar is served (and listed) without it")
+			}
+		}
 	}}
 }
 
@@ -1369,7 +1402,7 @@ func R56() Rule {
 func R57() Rule {
 	return Rule{Name: "R57", Run: func(c *core.Ctx) {
 		P := c.P
-		fn := P.MustFunc(core.PkgBttest, "(*table).validTimestamp")
+		fn := funcOr(P, core.PkgBttest, "(*table).validTimestamp", "validTimestamp")
 		c.Fn("(*table).validTimestamp")
 		isMsTest := func(v ssa.Value) bool {
 			bin, ok := core.Resolve(v).(*ssa.BinOp)
